@@ -1004,6 +1004,29 @@ class FnTranslator:
                 self.ex.helpers[h] = ('static inline int %s(%s x) { __CPROVER_assert(x != 0, "%s argument is non-zero"); return %s(x); }'
                                       % (h, argt, name, name))
             return '%s(%s)' % (h, ax[0])
+        if name in ('__builtin_mul_overflow', '__builtin_add_overflow', '__builtin_sub_overflow'):
+            # GCC/Clang: "performs the operation on the infinite-precision values of both operands and
+            # checks whether the result fits the third". CBMC 6.11 converts mixed-signedness operands to a
+            # common type first (measured: 1 * 0xFFFFFFFFFFFFFFFFul -> -1, no overflow), so the builtin is
+            # defined here from its documented meaning over __int128.
+            ta, tb = self.ty(args[0]), self.ty(args[1])
+            tr = self.ty(args[2])
+            if tr.ptr != 1 or tr.base not in SIGNED_INT and tr.base not in UNSIGNED_INT:
+                self.fail(n, 'overflow builtin result type')
+            for t in (ta, tb):
+                if t.base not in SIGNED_INT and t.base not in UNSIGNED_INT or t.ptr:
+                    self.fail(n, 'overflow builtin operand type')
+            if SIZEOF[ta.base] > 8 or SIZEOF[tb.base] > 8 or SIZEOF[tr.base] > 8:
+                self.fail(n, 'overflow builtin on 128-bit operands')
+            opn = name[10:13]
+            if opn == 'mul' and ta.base in UNSIGNED_INT and tb.base in UNSIGNED_INT and SIZEOF[ta.base] == 8 and SIZEOF[tb.base] == 8:
+                self.fail(n, 'u64*u64 overflow builtin exceeds the 128-bit model')
+            h = 'vf_%s_overflow_%s_%s_%s' % (opn, ta.base.replace(' ', '_'), tb.base.replace(' ', '_'), tr.base.replace(' ', '_'))
+            if h not in self.ex.helpers:
+                op = {'mul': '*', 'add': '+', 'sub': '-'}[opn]
+                self.ex.helpers[h] = ('static inline _Bool %s(%s a, %s b, %s *r) { __int128 p = (__int128)a %s (__int128)b; '
+                                      '*r = (%s)p; return p != (__int128)*r; }' % (h, ta.base, tb.base, tr.base, op, tr.base))
+            return '%s(%s)' % (h, ', '.join(ax))
         if name == '__builtin_sqrt':
             self.ex.externals.add('vf_sqrt')
             return 'vf_sqrt(%s)' % ax[0]
